@@ -1,5 +1,7 @@
-(* M-model of /repo/src/django_components/perfutil/provide.py (as of fix 9b964de: the provider holds a reference to its
-   own entry while its body renders), driven by the event alphabet of DESIGN Appendix B.  Definitions only.
+(* M-model of /repo/src/django_components/perfutil/provide.py as it is after /repo 9b964de (the provider holds a reference
+   to its own entry while its body renders), driven by the event alphabet of DESIGN Appendix B in the order the deferred
+   renderer produces after /repo 51f6eaa (component.py: get_context_data/inject FIRST, then register_provide_reference;
+   the root finally unregisters every id of its render tree once more).  Definitions only.
 
      provide_cache        : Dict[str, NamedTuple]   -> cache : list N           (only the key set matters here)
      provide_references   : Dict[str, Set[str]]     -> refs  : list (N * list N)  (association list, insertion order)
@@ -8,7 +10,7 @@
                                                     -> frames : list (N * list N), newest first
 
    A Python KeyError raised by the table code itself (dict.pop / dict[...] on a missing key) is the result `None`.
-   Ids are N (the harness numbers the 6-character ids).  `selfref` = false gives the protocol before the fix. *)
+   Ids are N (the harness numbers the 6-character ids).  `selfref` = false gives the protocol before 9b964de. *)
 From DJC Require Import Lib.Base.
 
 (* ---------- sets as lists ---------- *)
@@ -264,15 +266,16 @@ Definition tables_eqb (s : state) (t : tables) : bool :=
 Definition of_tables (t : tables) : state :=
   let '(c, r, a) := t in {| cache := c; refs := r; allr := a; frames := [] |}.
 
-(* a recorded render: tables before, then every event with the tables observed after it; None = the table code raised *)
-Fixpoint replay (s : state) (evs : list (event * option tables)) : bool :=
+(* a recorded render: tables before, then every event with the tables observed after it; None = the table code raised.
+   Result: the model's final state, or None at the first difference *)
+Fixpoint replay (s : state) (evs : list (event * option tables)) : option state :=
   match evs with
-  | [] => true
+  | [] => Some s
   | (e, obs) :: r =>
       match step true s e, obs with
-      | Some s1, Some t => tables_eqb s1 t && replay s1 r
-      | None, None => true
-      | _, _ => false
+      | Some s1, Some t => if tables_eqb s1 t then replay s1 r else None
+      | None, None => Some s                 (* both raise: the render ends here *)
+      | _, _ => None
       end
   end.
 
@@ -292,16 +295,14 @@ Record trace_case := {
 }.
 
 Definition check_trace (c : trace_case) : bool :=
-  replay (of_tables (tc_init c)) (tc_events c) &&
-  match tc_tree c with
-  | Some page =>
-      (* the hypotheses of the theorems hold for the recorded structure, and the deferred schedule is the recorded order *)
-      wf_page page && list_eqb event_eqb (trace_of page) (map fst (tc_events c))
-  | None => true
-  end &&
-  (if tc_clean c
-   then match run true empty_state (map fst (tc_events c)) with
-        | Some s => match cache s, refs s, allr s with [], [], [] => true | _, _, _ => false end
-        | None => false
-        end
-   else true).
+  match replay (of_tables (tc_init c)) (tc_events c) with
+  | None => false
+  | Some s =>
+      match tc_tree c with
+      | Some page =>
+          (* the hypotheses of the theorems hold for the recorded structure, and the deferred schedule is the recorded order *)
+          wf_page page && list_eqb event_eqb (trace_of page) (map fst (tc_events c))
+      | None => true
+      end &&
+      (if tc_clean c then match cache s, refs s, allr s with [], [], [] => true | _, _, _ => false end else true)
+  end.
